@@ -654,7 +654,7 @@ def _fresh_tok(name, cls):
 
 
 def rule_spec(rule, mk_node, spec_sets, variant=None, literal_kinds=True, invariants=None, extra_post=None,
-              live_for_bodies=None, notes=None):
+              live_for_bodies=None, notes=None, plain_live=True, budgets=None):
     """mk_node(env) -> ONode ; spec_sets(env, att) -> (W, R) z3 set terms of the abstract semantics of the node"""
     state = {}
 
@@ -678,8 +678,9 @@ def rule_spec(rule, mk_node, spec_sets, variant=None, literal_kinds=True, invari
                 out.append(('attaches' + fld, z3.BoolVal(False)))
                 return out
         out += [('defines-cover-writes', sub(Wn, o._defines_symbols.t)),
-                ('uses-cover-reads', sub(Rn, o._uses_symbols.t)),
-                ('live-covers-live-in', sub(env['live_in'], o._live_symbols.t))]
+                ('uses-cover-reads', sub(Rn, o._uses_symbols.t))]
+        if plain_live:
+            out.append(('live-covers-live-in', sub(env['live_in'], o._live_symbols.t)))
         need = live_for_bodies(env) if live_for_bodies else env['live_in']
         for k, (bt, live_t) in enumerate(att.body_calls):
             out.append(('body#%d-live-covers-live-in' % k, sub(need, live_t)))
@@ -694,7 +695,7 @@ def rule_spec(rule, mk_node, spec_sets, variant=None, literal_kinds=True, invari
 
     inv = {k: (lambda L, f=f: f(L, state['env'])) for k, f in (invariants or {}).items()}
     return FunctionSpec(PROP, F, 'DataflowAnalysisAttacher.' + rule, G, setup, post, invariants=inv, theory=T,
-                        lemmas=LEMMAS, variant=variant, decode=decode, notes=notes or [], budgets=BUD)
+                        lemmas=LEMMAS, variant=variant, decode=decode, notes=notes or [], budgets=budgets or BUD)
 
 
 def _body_unchanged(*fields):
@@ -850,6 +851,110 @@ def spec_masked_statement(literal_kinds):
                      extra_post=_body_unchanged('bodies', 'default'))
 
 
+# ---- visit_Associate: the sets are mapped back through the association list, ignoring letter case -----------------
+from pyvc.values import _LOWER, as_str_term, mk_str     # noqa: E402  pylint: disable=wrong-import-position
+NAME = z3.Function('symbol_name', V, z3.StringSort())
+def _name_prop(self):
+    return mk_str(NAME(self.t))
+
+
+for _cn in ('SymM', 'ExprM', 'NodeM', 'CallM'):      # set elements are of unknown model class: every class has a name
+    T.classes[_cn].props['name'] = _name_prop
+PROBES = []
+
+
+def _set_image(elt_t, x, filt):
+    """{elt(x) | x in filt}: a fresh set R with the defining inclusion instantiated at the registered probe elements
+    (arbitrary fresh constants, so what is proved about a probe holds for every element)"""
+    c = ctx()
+    Rs = c.fresh(SetV, 'image')
+    for p in PROBES:
+        c.assume(z3.Implies(z3.Select(filt, p) if not z3.is_app_of(filt, z3.Z3_OP_SET_UNION) else z3.IsMember(p, filt),
+                            z3.IsMember(z3.substitute(elt_t, (x, p)), Rs)))
+    return Rs
+
+
+T.set_image = _set_image
+T.set_element_type = lambda x: z3.Or(T.recog['is_C_SymM'](x), T.recog['is_C_ExprM'](x))
+
+
+class CaseInsensitiveDictM:
+    """model of loki.tools.util.CaseInsensitiveDict over symbolic string keys (C12 verifies the real class)"""
+
+    def __init__(self, items=()):
+        self.items_ = []
+        src = items.items() if hasattr(items, 'items') else items
+        for k, v in src:
+            self.items_.append((_LOWER(as_str_term(k)), v))
+
+    def _find(self, k):
+        kl = _LOWER(as_str_term(k))
+        for i in range(len(self.items_) - 1, -1, -1):         # later entries override earlier ones
+            if truth(mk_bool(self.items_[i][0] == kl)):
+                return i
+        return None
+
+    def __contains__(self, k):
+        return self._find(k) is not None
+
+    def __getitem__(self, k):
+        i = self._find(k)
+        if i is None:
+            raise KeyError(k)
+        return self.items_[i][1]
+
+    def get(self, k, default=None):
+        i = self._find(k)
+        return default if i is None else self.items_[i][1]
+
+
+G['CaseInsensitiveDict'] = CaseInsensitiveDictM
+
+
+def spec_associate(nassoc):
+    def mk(env):
+        c = ctx()
+        env['body'] = _fresh_nodes('body')
+        pairs = []
+        for i in range(nassoc):
+            k = _fresh_tok('selector%d' % i, 'ExprM')       # the associated expression (what is really read / written)
+            v = _fresh_tok('assoc_name%d' % i, 'SymM')      # the associate name used in the body
+            pairs.append((k, v))
+        env['pairs'] = pairs
+        env['probes'] = {n: c.fresh(V, 'probe_' + n) for n in ('defines', 'uses', 'live')}
+        del PROBES[:]
+        PROBES.extend(env['probes'].values())
+        for p in PROBES:
+            c.assume(T.set_element_type(p))
+        return ONode(body=SSeq(T, env['body'], 'tuple'), associations=tuple(pairs))
+
+    def back(env, w):
+        """sigma^-1(w): the selector of the association whose name equals w's name up to letter case, else w"""
+        t = w
+        for k, v in env['pairs']:           # later pairs override earlier ones, like the dict comprehension
+            t = z3.If(_LOWER(NAME(w)) == _LOWER(NAME(v.t)), k.t, t)
+        return t
+
+    def sets(env, att):
+        return EMPTY, EMPTY          # the per-element clauses below carry the specification
+
+    def extra(env, r):
+        o = env['o']
+        pd, pu, pl = env['probes']['defines'], env['probes']['uses'], env['probes']['live']
+        out = _body_unchanged('body')(env, r)
+        if isinstance(o.updated.get('_defines_symbols'), SSet):
+            out.append(('every-write-is-reported-under-its-selector',
+                        z3.Implies(z3.IsMember(pd, Wl(env['body'])), z3.IsMember(back(env, pd), o._defines_symbols.t))))
+            out.append(('every-read-is-reported-under-its-selector',
+                        z3.Implies(z3.IsMember(pu, Rl(env['body'])), z3.IsMember(back(env, pu), o._uses_symbols.t))))
+            out.append(('live-in-is-reported-under-its-selector',
+                        z3.Implies(z3.IsMember(pl, env['live_in']), z3.IsMember(back(env, pl), o._live_symbols.t))))
+        return out
+    sp = rule_spec('visit_Associate', mk, sets, variant='%d association(s)' % nassoc, extra_post=extra, plain_live=False,
+                   notes=['bounded: %d association(s); names symbolic (letter case included)' % nassoc])
+    return sp
+
+
 class _TypeTok:
     def __init__(self, intent):
         self.intent = intent
@@ -892,7 +997,7 @@ def specs(tier='quick'):
             spec_conditional(True), spec_conditional(False), spec_assignment(True), spec_assignment(False),
             spec_conditional_assignment(), spec_multi_conditional(), spec_masked_statement(True),
             spec_masked_statement(False)] + [spec_call_known((i,)) for i in INTENTS] + \
-        [spec_call_known((i, j)) for i in INTENTS[:4] for j in INTENTS[:4]]
+        [spec_call_known((i, j)) for i in INTENTS[:4] for j in INTENTS[:4]] + [spec_associate(1), spec_associate(2)]
 
 
 META = {
